@@ -1,33 +1,35 @@
 /-
   T-writer, part 3: the loops of the writer as sequences of elementary steps, generically in the
-  invariant (`cutLevels_spec`, `flushLevels_spec`).
+  invariant (`cutLevels_steps`, `flushLevels_steps`).
 -/
 import Grenad.Proofs.WriterTreeSub
 
 namespace Grenad
 
+open WT
+
 /-- The part of the writer state the level loops work on: index writers, output, log. -/
-abbrev St := List BW × Bytes × List Emitted
+abbrev WSt := List BW × Bytes × List Emitted
 
 /-- Emit the block of the index writer `cur` (list index `i+1`), whose parent (list index `i`)
     has become `parent'`. -/
-def cutAt (cd : Codec) (i : Nat) (cur parent' : BW) (s : St) : St :=
+def cutAt (cd : Codec) (i : Nat) (cur parent' : BW) (s : WSt) : WSt :=
   ((s.1.set i parent').set (i + 1) cur.reset, s.2.1 ++ W.blockBytes cd cur.finish,
    s.2.2 ++ [{ offset := s.2.1.length, level := s.1.length - (i + 1), raw := cur.finish,
                items := cur.items }])
 
 /-- Emit the root block (list index 0). -/
-def rootAt (cd : Codec) (cur : BW) (s : St) : St :=
+def rootAt (cd : Codec) (cur : BW) (s : WSt) : WSt :=
   (s.1.set 0 cur.reset, s.2.1 ++ W.blockBytes cd cur.finish,
    s.2.2 ++ [{ offset := s.2.1.length, level := s.1.length, raw := cur.finish,
                items := cur.items }])
 
 /-- Emit a data block; the last index writer (list index `i`) has become `parent'`. -/
-def dataAt (cd : Codec) (i : Nat) (bw parent' : BW) (s : St) : St :=
+def dataAt (cd : Codec) (i : Nat) (bw parent' : BW) (s : WSt) : WSt :=
   (s.1.set i parent', s.2.1 ++ W.blockBytes cd bw.finish,
    s.2.2 ++ [{ offset := s.2.1.length, level := 0, raw := bw.finish, items := bw.items }])
 
-theorem cutLevels_spec (cd : Codec) (bs : Nat) (P : St → Prop)
+theorem cutLevels_steps (cd : Codec) (bs : Nat) (P : WSt → Prop)
     (H : ∀ i idx out log cur parent lk, P (idx, out, log) → idx[i + 1]? = some cur →
       idx[i]? = some parent → cur.lastKey = some lk →
       ∃ p', parent.insert lk (be64 out.length) = .ok p' ∧ P (cutAt cd i cur p' (idx, out, log))) :
@@ -53,7 +55,7 @@ theorem cutLevels_spec (cd : Codec) (bs : Nat) (P : St → Prop)
         · exact ih _ _ _ h
       · exact ⟨_, rfl, h⟩
 
-theorem flushLevels_spec (cd : Codec) (P : Nat → St → Prop) (Q : St → Nat → Prop)
+theorem flushLevels_steps (cd : Codec) (P : Nat → WSt → Prop) (Q : WSt → Nat → Prop)
     (Hlen : ∀ i s, P (i + 1) s → i < s.1.length)
     (Hcut : ∀ i idx out log cur parent lk, P (i + 2) (idx, out, log) → idx[i + 1]? = some cur →
       idx[i]? = some parent → cur.lastKey = some lk →
